@@ -712,3 +712,60 @@ Proof.
   - intros a b Ha Hb Hs. rewrite forallb_forall in S. specialize (S a Ha). rewrite forallb_forall in S. specialize (S b Hb).
     rewrite (sibb_complete a b Hs) in S. discriminate.
 Qed.
+
+(* ================================================================ further closure facts (used by add / remove / pop proofs) *)
+(* any duplicate-free selection of keys of a valid state is a valid state *)
+Lemma SetInv_incl d d' : SetInv d -> NoDup d' -> incl d' d -> SetInv d'.
+Proof.
+  intros H N I. apply SetInv_alt in H. destruct H as (W & _ & F & S). apply SetInv_alt.
+  rewrite Forall_forall in W. split; [apply Forall_forall; intros x Hx; apply W, I, Hx|split; [exact N|split]].
+  - intros a b Ha Hb. apply F; apply I; assumption.
+  - intros a b Ha Hb. apply S; apply I; assumption.
+Qed.
+
+Lemma SetInv_cons_inv k l : SetInv (k :: l) ->
+  wfh k /\ SetInv l /\ ~ In k l /\ forall n, In n l -> ~ overlap k n.
+Proof.
+  intros H. pose proof (SetInv_nodup _ H) as N. destruct H as (W & F & S).
+  inversion W as [|? ? Wk Wl]; subst. inversion F as [|? ? Fk Fl]; subst. inversion N as [|? ? Nk Nl]; subst.
+  split; [exact Wk|split; [|split; [exact Nk|]]].
+  - split; [exact Wl|split; [exact Fl|]]. intros a b Ha Hb. apply S; now right.
+  - rewrite Forall_forall in Fk. exact Fk.
+Qed.
+
+Lemma den_cons_inv k l ver x : SetInv (k :: l) -> (den l ver x <-> den (k :: l) ver x /\ ~ in_net k ver x).
+Proof.
+  intros H. destruct (SetInv_cons_inv k l H) as (_ & _ & _ & O). rewrite den_cons. split.
+  - intros D. split; [auto|]. intros Ik. destruct D as (n & Hn & In_). apply (O n Hn). exists ver, x. auto.
+  - tauto.
+Qed.
+
+(* dict facts on host-bit-free keys, in terms of plain membership *)
+Lemma in_dset_wfh x d k : Forall wfh d -> wfh k -> (In x (dset d k) <-> In x d \/ x = k).
+Proof.
+  intros Wd Wk. rewrite in_dset. split; [tauto|]. intros [H| ->]; [auto|].
+  destruct (dmem k d) eqn:E; [left; apply dmem_in; assumption|auto].
+Qed.
+
+Lemma NoDup_dset d k : Forall wfh d -> wfh k -> NoDup d -> NoDup (dset d k).
+Proof.
+  intros Wd Wk N. unfold dset. destruct (dmem k d) eqn:E; [exact N|].
+  apply (Permutation_NoDup (Permutation_cons_append d k)). constructor; [|exact N].
+  intros Hk. assert (dmem k d = true) by (apply dmem_in; assumption). congruence.
+Qed.
+
+Lemma in_dupdate_wfh l : forall d x, Forall wfh d -> Forall wfh l -> (In x (dupdate d l) <-> In x d \/ In x l).
+Proof.
+  induction l as [|k l IH]; intros d x Wd Wl; [cbn; tauto|].
+  inversion Wl as [|? ? Wk Wl']; subst. rewrite dupdate_cons, IH; auto.
+  - rewrite in_dset_wfh by assumption. cbn [In]. split; intros H; repeat destruct H as [H|H]; auto.
+  - apply Forall_forall. intros y Hy. apply in_dset_wfh in Hy; auto. rewrite Forall_forall in Wd. destruct Hy as [Hy| ->]; auto.
+Qed.
+
+Lemma NoDup_dupdate l : forall d, Forall wfh d -> Forall wfh l -> NoDup d -> NoDup (dupdate d l).
+Proof.
+  induction l as [|k l IH]; intros d Wd Wl N; [exact N|].
+  inversion Wl as [|? ? Wk Wl']; subst. rewrite dupdate_cons. apply IH; auto.
+  - apply Forall_forall. intros y Hy. apply in_dset_wfh in Hy; auto. rewrite Forall_forall in Wd. destruct Hy as [Hy| ->]; auto.
+  - apply NoDup_dset; assumption.
+Qed.
